@@ -43,6 +43,9 @@ def main():
             print(sid, "patch does not apply:", out[-300:])
             continue
         det = {}
+        # evidence/ describes the UNCHANGED tree: keep what is there, put it back afterwards
+        saved = {p: ((VERIF / "evidence" / (p + ".json")).read_bytes()
+                     if (VERIF / "evidence" / (p + ".json")).exists() else None) for p in props}
         try:
             for p in props:
                 t0 = time.time()
@@ -59,6 +62,12 @@ def main():
                         pass
         finally:
             sh("git -C /repo checkout -- .")
+            for p, blob in saved.items():
+                f = VERIF / "evidence" / (p + ".json")
+                if blob is None:
+                    f.unlink(missing_ok=True)
+                else:
+                    f.write_bytes(blob)
         meta["detected_by"] = {p: v for p, v in det.items() if v["exit"] != 0} or None
         meta["checks_run"] = {p: v["exit"] for p, v in det.items()}
         (d / "meta.json").write_text(json.dumps(meta, indent=1) + "\n")
